@@ -112,7 +112,7 @@ func init() {
 			}})
 		// Reed-Solomon
 		rsReal := []string{"utils.NewReedSolomonEncoder", "(*utils.ReedSolomonEncoder).getPolynomial", "(*utils.ReedSolomonEncoder).Encode", "utils.NewGFPoly", "(*utils.GFPoly).Multiply", "(*utils.GFPoly).MultByMonominal", "(*utils.GFPoly).Divide", "(*utils.GFPoly).AddOrSubstract", "utils.NewMonominalPoly", "(*utils.GaloisField).Invers"}
-		reg(&Oblig{ID: "RS-enc-" + f.name, Pkg: f.pkg, Func: "VP_RS_encode", Props: []string{"C17", "C15"}, Desc: "data||Encode(data,e) has zero syndromes at alpha^(base..base+e-1) for symbolic data, after a prior cache request d0",
+		reg(&Oblig{ID: "RS-enc-" + f.name, Pkg: f.pkg, Func: "VP_RS_encode", Props: []string{"C17"}, Desc: "data||Encode(data,e) has zero syndromes at alpha^(base..base+e-1) for symbolic data, after a prior cache request d0",
 			Real: rsReal, Stubs: []string{src, "(*GaloisField).Multiply summarised by the reference product (discharged by GF-mul-" + f.name + ")"},
 			Bound: "k <= 2 data x e <= 4 check symbols and k = 3 x e <= 2, each with prior request d0 in {0, e+1} (quick); k <= 3 x e <= 6 (thorough); plus k = 1 with e in {7,10,13,17,30,68} (quick) / every e up to 68 (100 for Aztec fields) (thorough), which pins the generator polynomials the callers request",
 			Configs: func(tier string, seed int64) []map[string]int {
